@@ -134,6 +134,23 @@ move: (T11 *m g0) (T11 *m G *m Ku) (T12 *m Ku) (S11 *m G *m Ku) (S12 *m Ku) (T11
 by move=> y1 y2 y3 y4 y5 y6 y7 y8 y9 y10 y11 y12; mx_abel.
 Qed.
 
+(* without shocks the stable block determines the next gamma uniquely: whatever pair (g0, g1) satisfies it
+   is one step of the recursion *)
+Lemma core_step_unique (g0 g1 : 'cV[F]_nb) :
+  S11 *m (g1 + G *m Ku) + S12 *m Ku + T11 *m (g0 + G *m Ku) + T12 *m Ku + QC1 = 0 -> Tg *m g0 + Kg = g1.
+Proof.
+move=> H.
+have := core_upper g0 0 0; rewrite !mulmx0 !subr0 !addr0 => U.
+have E : S11 *m (Tg *m g0 + Kg) = S11 *m g1.
+  move: H U; rewrite !mulmxDr.
+  move: (S11 *m (Tg *m g0)) (S11 *m Kg) (S11 *m g1) (S11 *m (G *m Ku)) (T11 *m g0) (T11 *m (G *m Ku))
+        (S12 *m Ku) (T12 *m Ku) => z1 z2 z3 z4 z5 z6 z7 z8 H U.
+  have : z1 + z2 - z3 = (z1 + z2 + z4 + z7 + (z5 + z6) + z8 + QC1) - (z3 + z4 + z7 + (z5 + z6) + z8 + QC1).
+    by mx_abel.
+  by rewrite U H subr0 => /eqP; rewrite subr_eq0 => /eqP.
+by rewrite -[LHS](mulKmx uS11) E mulKmx.
+Qed.
+
 (* in steady state (no shocks): the gamma recursion has a fixed point wherever the stable block holds *)
 Lemma core_fixed_point (g : 'cV[F]_nb) :
   (S11 + T11) *m (g + G *m Ku) + (S12 + T12) *m Ku + QC1 = 0 -> Tg *m g + Kg = g.
